@@ -38,11 +38,11 @@ BOUNDS = {
     "thorough": {"N": 4, "bfs_depth": 4, "bfs_prios": list(range(9)), "pairs": True},
 }
 RULE = (
-    "record alphabet = 7 levels x tags {none,[],[a],[a,b]} x 11 texts (empty, ascii, newline, CRLF, NUL, emoji, "
-    "'<3>'-prefix look-alike, 70 kB line, padded+trailing newline, unicode line separators, %-format look-alike) x "
-    "with/without exception trace = 616 records, timestamps from a deterministic clock (5 sub-second fractions). "
+    "record alphabet = 7 levels x tags {none,[],[a],[a,b]} x 13 texts (empty, ascii, newline, CRLF, NUL, emoji, "
+    "'<3>'-prefix look-alike, 70 kB line, padded+trailing newline, unicode line separators, %-format look-alike, a lone "
+    "surrogate alone, lone surrogates inside ascii) x with/without exception trace = 728 records, timestamps from a deterministic clock (5 sub-second fractions). "
     "Logs enumerated: (alpha) every alphabet record as a 1-record log; (lvseq) ALL level sequences of length 0..N; "
-    "(txseq) ALL text-kind sequences of length 1..N over the 8 text kinds of the brief and of length 1..N-1 over all 11; remaining attributes assigned by a rotating schedule so that every "
+    "(txseq) ALL text-kind sequences of length 1..N over the 8 text kinds of the brief and of length 1..N-1 over all 13; remaining attributes assigned by a rotating schedule so that every "
     "attribute value occurs at every position; (pairs, thorough) all ordered pairs over level x text; (flevel) level "
     "sequences <=2 x file level. N=3 quick / 4 thorough. Each log: written once by the real handler, read as "
     "{.zst as written, .gz, plain, stdin pipe, stdin file} x {with '<prio>' prefix, prefix stripped}; round trip, len, "
@@ -65,6 +65,8 @@ ASSUMPTIONS = [
     "on a new line; line count of head/tail applied before or after the priority filter; reverse with an explicit "
     "offset = forward slice backwards or walk back from that record (hr --reverse: whole log backwards only); positive "
     "offsets >= len and out-of-range seek_to_* = error or empty slice; cursor position after an iteration unspecified",
+    "hr's stdout is modelled as a UTF-8 stream with errors='surrogatepass' (a stream that can carry any str), so that "
+    "printing a text with a lone surrogate is not an encoding question of the terminal",
     "iterators returned by records() are consumed completely before the next operation (no interleaving of a "
     "half-consumed iterator with other calls)",
 ]
@@ -107,6 +109,14 @@ def worker_init() -> None:
     from gallia.cli import hr
 
     logging.raiseExceptions = False
+    G["thread_exc"] = []
+
+    def _hook(args: Any) -> None:
+        # an exception that kills a thread started by gallia (the QueueListener of the file handler): recorded, judged
+        # by the oracle as a violation (the record that raised and every later record are lost), never printed
+        G["thread_exc"].append((getattr(args.thread, "name", "?"), args.exc_type.__name__, str(args.exc_value)[:200]))
+
+    threading.excepthook = _hook
     logger = gl.get_logger(LOGGER)
     logger.setLevel(1)
     logger.propagate = False
@@ -122,10 +132,18 @@ def worker_init() -> None:
 # -- writing ---------------------------------------------------------------------------
 
 
-def write_log(path: Path, specs: list[M.RecSpec], file_level: str) -> None:
+JOIN_TIMEOUT = 20.0  # only ever waited for when gallia fails to stop its listener thread
+
+
+def write_log(path: Path, specs: list[M.RecSpec], file_level: str) -> list[tuple[str, str]]:
+    """log ``specs`` through the real handler path; returns writer-side failures as (signature part, message)."""
     gl = G["gl"]
     logger = G["logger"]
+    G["thread_exc"].clear()
+    problems: list[tuple[str, str]] = []
     handler = gl.add_zst_log_handler(LOGGER, path, gl.Loglevel[file_level])
+    lst = handler.queue_listener
+    thread = getattr(lst, "_thread", None)
     try:
         for i, (level, tags_i, text_k, exc) in enumerate(specs):
             G["clock"].us = M.ts_us(i)
@@ -133,10 +151,23 @@ def write_log(path: Path, specs: list[M.RecSpec], file_level: str) -> None:
             extra = None if tags is None else {"tags": list(tags)}
             getattr(logger, level.lower())(M.TEXTS[text_k], extra=extra, exc_info=G["exc"] if exc else None)
     finally:
-        gl.remove_zst_log_handler(LOGGER, handler)
-    lst = handler.queue_listener
-    if lst is not None and lst._thread is not None and lst._thread.is_alive():  # noqa: SLF001
-        lst._thread.join()  # noqa: SLF001  (never the case on the unchanged tree; keeps the harness deterministic)
+        closer = threading.Thread(target=gl.remove_zst_log_handler, args=(LOGGER, handler), daemon=True)
+        closer.start()
+        closer.join(JOIN_TIMEOUT)
+        if closer.is_alive():
+            problems.append(("remove-handler-hangs", f"remove_zst_log_handler() did not return within {JOIN_TIMEOUT} s"))
+            G["leaked"] += 1
+    if thread is not None and thread.is_alive():
+        # gallia did not stop its listener: ask it to, so that the file is complete and nothing leaks into the next item
+        lst.enqueue_sentinel()
+        thread.join(JOIN_TIMEOUT)
+        problems.append(("listener-thread-not-stopped", "the QueueListener thread was still running after remove_zst_log_handler()"))
+        if thread.is_alive():
+            G["leaked"] += 1
+    for name, typ, msg in G["thread_exc"]:
+        problems.append((f"handler-thread-died|{typ}", f"thread {name} was killed by {typ}: {msg} - that record and all later ones never reach the file"))
+    G["thread_exc"].clear()
+    return problems
 
 
 def strip_prefix(raw: bytes) -> bytes:
@@ -280,7 +311,9 @@ class LogCase:
         # failure shapes of records(p,k,rev) without history: on a fresh reader / on a reader whose len() was taken first
         self.base: dict[tuple[Any, ...], set[str | None]] = {}
         zpath = d / "as-written.json.zst"
-        write_log(zpath, specs, file_level)
+        for part, msg in write_log(zpath, specs, file_level):
+            texts = ",".join(sorted({s[2] for s in specs}))
+            self.violate(f"C17|write|{part}", f"{msg} [texts logged: {texts}]", {"op": "write"})
         try:
             with zpath.open("rb") as f:
                 raw = zstandard.ZstdDecompressor().stream_reader(f).read()
@@ -441,7 +474,7 @@ def sweep_records(lc: LogCase, variant: str, cont: str, reader: Any, prios: list
 
 def run_hr(files: Files, cont: str, argv: list[str]) -> tuple[Any, str, str | None]:
     hr = G["hr"]
-    out = io.TextIOWrapper(io.BytesIO(), encoding="utf-8", newline="")
+    out = io.TextIOWrapper(io.BytesIO(), encoding="utf-8", errors="surrogatepass", newline="")
     err = io.StringIO()
     old = sys.argv
     sys.argv = ["hr", *argv]
@@ -459,7 +492,7 @@ def run_hr(files: Files, cont: str, argv: list[str]) -> tuple[Any, str, str | No
     finally:
         sys.argv = old
     out.flush()
-    text = out.buffer.getvalue().decode("utf-8")  # type: ignore[attr-defined]
+    text = out.buffer.getvalue().decode("utf-8", "surrogatepass")  # type: ignore[attr-defined]
     return code, text, crash
 
 
@@ -932,6 +965,7 @@ def run_item(item: tuple[Any, ...]) -> Result:
     old_tmp = tempfile.tempdir
     tempfile.tempdir = str(d)
     threads_before = threading.active_count()
+    G["leaked"] = 0
     try:
         fam = item[0]
         if fam == "lvseq":
@@ -967,7 +1001,7 @@ def run_item(item: tuple[Any, ...]) -> Result:
     finally:
         tempfile.tempdir = old_tmp
         shutil.rmtree(d, ignore_errors=True)
-    if threading.active_count() != threads_before:
+    if threading.active_count() > threads_before + G["leaked"]:  # threads gallia failed to stop are violations, not harness errors
         raise Broken("harness: a thread survived the item")
     return res
 
